@@ -78,6 +78,7 @@ props["C15"] = {
         run("root", "VxC15Monotone", {"N": 3, "M": 4}, {"N": 4, "M": 4}),
         run("root", "VxC15Exact", {"N": 4}, {"N": 6}),
         run("file", "VxC15FileTimestamp", {}, {}, note="file backend: listed CreatedAt = LTX header timestamp"),
+        run("root", "VxC15Restore", {}, {}, note="Replica.Restore with a timestamp, a snapshot uploaded ahead of its level-0 file"),
         run("root", "VxC15SnapshotStamp", {}, {}, note="a snapshot that waited for the executor behind a sync round is stamped no earlier than the TXID it covers (interleaving point: lockExec)"),
     ],
     "assumptions": [
@@ -251,6 +252,7 @@ props["C17"] = {
     "level": "model_checking", "validate": 3,
     "runs": [
         run("root", "VxC17Incremental", {}, {}),
+        run("root", "VxC17PageMap", {}, {}, note="WAL frames for the pages next to the lock page reach the page map"),
         run("root", "VxC17Snapshot", {"PSI": 7}, {"PSI": 7}, note="65536-byte pages: 16385 loop iterations"),
         run("root", "VxC17Snapshot", {"PSI": 6, "_maxsteps": 40000000}, {"PSI": 6, "_maxsteps": 40000000}, note="32768-byte pages"),
         run("root", "VxC17Snapshot", None, {"PSI": 5, "_maxsteps": 80000000}, tier="thorough", note="16384-byte pages"),
